@@ -567,9 +567,13 @@ def join(R):
         from .common import deep_origin
         if isinstance(v, ast.Call) and U(v.func) != "b''.join":
             v = deep_origin(R, g, d, v)
-        ok = isinstance(v, ast.Call) and U(v.func) == "b''.join" and len(v.args) == 1 and isinstance(v.args[0], (ast.GeneratorExp, ast.ListComp))
+        jarg = v.args[0] if isinstance(v, ast.Call) and U(v.func) == "b''.join" and len(v.args) == 1 else None
+        if isinstance(jarg, ast.Name):
+            # the list of payloads built in a local first
+            jarg = rd.origin(d, jarg)[0]
+        ok = isinstance(jarg, (ast.GeneratorExp, ast.ListComp))
         if ok:
-            ge = v.args[0]
+            ge = jarg
             gen = ge.generators[0]
             elt = ge.elt
             if isinstance(elt, ast.Call) and U(elt.func) in ('bytes', 'bytearray') and elt.args:
